@@ -72,6 +72,19 @@ def _nonzero_known(target, facts):
     return False
 
 
+def _zero_implies(z, p):
+    """z == 0 implies p == 0 for non-negative cell counts: z has only positive coefficients (so z == 0 means each of its monomials
+    is 0) and every monomial of p is a multiple of some monomial of z."""
+    if not z or not all(c > 0 for c in z.values()) or () in z:
+        return False
+    zmon = [dict(m) for m in z]
+    for mono in p:
+        d = dict(mono)
+        if not any(all(d.get(a, 0) >= e for a, e in zm.items()) for zm in zmon):
+            return False
+    return True
+
+
 def _path_nonzero_facts(conds):
     facts, opaque = [], []
     for c, pol in conds:
@@ -84,15 +97,80 @@ def _path_nonzero_facts(conds):
     return facts, opaque
 
 
+def _nan_free(r):
+    return isinstance(r, Rat) and not any(a.func in ("$nan", "ifexp") for a in r.atoms(deep=True))
+
+
+def _inline_hook(prog, depth=2):
+    """A score defined through another score -- X().compute_from_abcd(a, b, c, d) -- is evaluated by folding X's body into one value
+    ifexp(guard, nan, formula); np.isnan() of such a value is its guard.  """
+    def hook(ev, node, rname, args, kwargs, path):
+        if isinstance(node.func, ast.Attribute) and node.func.attr == "compute_from_abcd" and isinstance(node.func.value, ast.Call) and depth > 0:
+            cname = ev.module.resolve(dotted(node.func.value.func) or "")
+            cls = prog.cls(cname, required=False) if cname else None
+            hit = prog.lookup_method(cls, "compute_from_abcd") if cls is not None else None
+            if hit is None or len(args) != 4:
+                return None
+            sub = symeval.Evaluator(hit[0].module, call_hook=_inline_hook(prog, depth - 1))
+            params = [a.arg for a in hit[1].args.args if a.arg != "self"]
+            try:
+                outs = [o for o in sub.run(hit[1], env=dict(zip(params, args))) if o.kind == "return"]
+            except symeval.Undecided:
+                return None
+            if not outs:
+                return None
+            val = outs[-1].value
+            for o in reversed(outs[:-1]):
+                cond = None
+                for c_, pol in o.conds:
+                    lit = c_ if pol else form.apply("not", [c_])
+                    cond = lit if cond is None else form.apply("and", [cond, lit])
+                val = form.apply("ifexp", [cond, o.value, val]) if cond is not None else o.value
+            # the callee's own divisions are obligations of the callee (checked where it is defined), not of the caller
+            return val
+        if rname == "numpy.isnan" and len(args) == 1 and isinstance(args[0], Rat):
+            at = args[0].as_atom("ifexp")
+            if at is not None and isinstance(at.args[1], Rat) and isinstance(at.args[2], Rat):
+                if at.args[1].key() == "$nan" and _nan_free(at.args[2]):
+                    return at.args[0]
+                if at.args[2].key() == "$nan" and _nan_free(at.args[1]):
+                    return form.apply("not", [at.args[0]])
+        return None
+    return hook
+
+
+def _resolve_ifexp(value, conds):
+    """Replace ifexp(c, x, y) by the branch that the path conditions select."""
+    known = {}
+    for c_, pol in conds:
+        if isinstance(c_, Rat):
+            known[c_.key()] = pol
+            neg = form.apply("not", [c_])
+            known[neg.key()] = not pol
+
+    def fn(at):
+        if at.func == "ifexp" and isinstance(at.args[0], Rat) and at.args[0].key() in known:
+            return at.args[1] if known[at.args[0].key()] else at.args[2]
+        return None
+    try:
+        return form.map_atoms(value, fn) if isinstance(value, Rat) else value
+    except form.Undefined:
+        return value
+
+
 def check_class(ctx, c, table, n_rat):
     prog = ctx.prog
     m = c.module
     site = c.qual + ".compute_from_abcd"
     f = c.methods["compute_from_abcd"]
     loc = prog.loc(m, f)
-    ev = symeval.Evaluator(m)
+    ev = symeval.Evaluator(m, call_hook=_inline_hook(prog))
     try:
         outs = ev.run(f)
+        for o in outs:
+            if o.kind == "return" and isinstance(o.value, Rat) and "ifexp(" in o.value.key():
+                o.value = _resolve_ifexp(o.value, o.conds)
+                o.divs = [(_resolve_ifexp(d_, o.conds), n_) for d_, n_ in o.divs]
     except symeval.Undecided as e:
         ctx.undecided_item("C06.2", site, "body outside the straight-line fragment: %s" % e)
         raise AnalysisError("%s: compute_from_abcd not expressible (%s)" % (c.qual, e))
@@ -162,7 +240,7 @@ def check_class(ctx, c, table, n_rat):
         for p in allneeds:
             prod = form._pmul(prod, p)
         for z in zs:
-            ok = form.poly_divides(z.num, prod) or any(_nonzero_known(p, [z.num]) for p in allneeds)
+            ok = form.poly_divides(z.num, prod) or any(_zero_implies(z.num, p) for p in allneeds)
             ctx.ob("C06.3", site, ok, "guard %s == 0 is an undefined point" % form._pkey(z.num), loc=prog.loc(m, o.node),
                    msg="%s returns NaN when %s == 0 although the score is defined there" % (c.name, z.key()),
                    sample={"rule": "C06.3", "class": c.name, "nan_guard": z.key(), "justified": ok})
